@@ -72,6 +72,7 @@ func init() {
 		"strings.HasPrefix": specBytesHasPrefix,
 		"errors.Join":       specErrorsJoin,
 		"io.ReadFull":       specIOReadFull,
+		"slices.BinarySearchFunc": specBinarySearchFunc,
 		"io.CopyN":          specIOCopyN,
 		"(io.Reader).Read":  specIORead,
 		"slices.SortFunc":   specSlicesSortFunc,
@@ -812,4 +813,36 @@ func specIOCopyN(env *Env, recv *Val, args []Val, st *State, call *ast.CallExpr)
 	errv := c.fresh("copyerr", "Int")
 	st.assume(ite(enough, eq(errv, "0"), eq(errv, ioErr(c, "EOF"))))
 	return Val{Tuple: []Val{{T: got, Ty: types.Typ[types.Int64]}, {T: errv, Ty: types.Universe.Lookup("error").Type()}}}
+}
+
+// slices.BinarySearchFunc(s, target, cmp): position in [0, len]; found implies a valid index.
+// The comparison closure may assign captured variables: those are forgotten.
+func specBinarySearchFunc(env *Env, recv *Val, args []Val, st *State, call *ast.CallExpr) Val {
+	c := env.c
+	sl := args[0]
+	s := env.sortOf(sl.Ty)
+	env.rangeAssume(st, sl)
+	ln := app("len_"+s, sl.T)
+	idx := env.havoc(st, "bsearch_idx", tInt)
+	found := c.fresh("bsearch_found", "Bool")
+	st.assume(and(app("<=", "0", idx.T), app("<=", idx.T, ln), implies(found, app("<", idx.T, ln))))
+	if len(args) >= 3 && args[2].Fn != nil && args[2].Fn.Lit != nil && !env.contract {
+		cenv := args[2].Fn.Env
+		ast.Inspect(args[2].Fn.Lit.Body, func(n ast.Node) bool {
+			if as, ok := n.(*ast.AssignStmt); ok && as.Tok == token.ASSIGN {
+				for _, l := range as.Lhs {
+					if id, ok := unparen(l).(*ast.Ident); ok {
+						if o := cenv.resolveIdent(id); o != nil {
+							if v, ok := st.vars[o]; ok && v.Ty != nil {
+								st.vars[o] = env.havoc(st, id.Name, v.Ty)
+							}
+						}
+					}
+				}
+			}
+			return true
+		})
+	}
+	c.trust("slices.BinarySearchFunc: returns a position in [0, len] and found only with a valid index; ordering facts are not assumed")
+	return Val{Tuple: []Val{idx, boolVal(found)}}
 }
